@@ -438,6 +438,13 @@ def check_verbatim(doc, chosen, cfg, res, history=None):
         return
     got = [cu[1] for cu in vtt_cues(r.v)]
     want = [(" " + st) if st else "" for st in chosen]
+    if not history:
+        # audit w7: the model of the READER (1213) on the timing lines the REAL writer printed: it must keep the settings read
+        # from the input document
+        wl = [l for l in r.v.split("\n") if "-->" in l]
+        back = [None if m[0] != 2 else m[1] for m in oracle_batch([(1213, l) for l in wl])]
+        if back != [st if st else None for st in chosen]:
+            res["disagreements"].append(dict(base, stream="vtt-reader-model-on-written-lines", impl=repr(wl)[:300], model=repr(back)[:300]))
     if got != want:
         res["violations"].append(dict(base, kind="vtt-verbatim", impl_obs=repr(got),
                                       what=f"cue settings {chosen!r} read from a WebVTT file were written back as {got!r}"
